@@ -18,17 +18,18 @@ namespace KV.C02
 
 /-! ## R. Regenerated tie: the structural facts of the source the model relies on
 
-`Gen/DecoderFacts.lean` is re-extracted (go/ast, `go/extract/decoder.go`) from message_reader.go, batch.go, conn.go and
+`Gen/DecoderFacts.lean` is re-extracted (go/ast, `go/extract/decoder`; renderings are alpha-normalised: receiver `$r`,
+locals `$1`, `$2`, … — renaming a receiver, parameter or local does not change a fact) from message_reader.go, batch.go, conn.go and
 reader.go of the tree under test on every run; the theorems below compare it with what the model assumes, so an
 edit of one of these places breaks `lake build` (and the theorems of §1–§3 are re-stated for `currentVariant`). -/
 
 /-- which model variant a set of source facts describes -/
 def variantOfFacts (f : Gen.DecoderFacts) : Option Variant :=
   if f.skipEmptyLoop ∧ f.batchEndOnEmpty ∧ f.batchEndOnLast ∧ f.batchEndApplied ∧
-     f.jumpGuard = "errors.Is(batch.err, io.EOF) && batch.msgs.lengthRemain == 0 && batch.lastOffset >= batch.offset" ∧
+     f.jumpGuard = "errors.Is($r.err, io.EOF) && $r.msgs.lengthRemain == 0 && $r.lastOffset >= $r.offset" ∧
      f.oorSeeksConn then some .fixed
   else if !f.skipEmptyLoop ∧ !f.batchEndOnEmpty ∧ !f.batchEndOnLast ∧ !f.batchEndApplied ∧
-     f.jumpGuard = "errors.Is(batch.err, io.EOF) && batch.msgs.lengthRemain == 0 && batch.lastOffset != -1" ∧
+     f.jumpGuard = "errors.Is($r.err, io.EOF) && $r.msgs.lengthRemain == 0 && $r.lastOffset != -1" ∧
      !f.oorSeeksConn then some .legacy
   else none
 
@@ -53,7 +54,7 @@ of ReadMessage compares with the conn offset strictly, `highWaterMark == offset`
 the batch offset into the conn -/
 theorem decoder_statements :
     Gen.decoderFacts.nextOffsetPlus = 1 ∧ Gen.decoderFacts.readerNextOffsetPlus = 1 ∧
-    Gen.decoderFacts.skipBelow = "batch.conn != nil && offset < batch.connOffset()" ∧
+    Gen.decoderFacts.skipBelow = "$r.conn != nil && $1 < $r.connOffset()" ∧
     Gen.decoderFacts.emptyWhenHwmEqOffset = true ∧ Gen.decoderFacts.closeStoresOffset = true := by decide
 
 /-! ## 0. The defects of the pinned code (`Variant.legacy`), kept as theorems about the legacy model
